@@ -118,6 +118,7 @@ fn gen_case(dna: &[u8], cfg: &crate::gen::GenCfg) -> Case {
 
 pub fn check(ctx: &Ctx, c: &Case, label: &str, counting: bool) -> Result<(), Fail> {
 	let bytes = c.raw.serialize();
+	super::sibling_history(&c.m, &bytes);
 	let m = &c.m;
 	if counting {
 		ctx.eval();
